@@ -30,7 +30,7 @@ ASSUMPTIONS = ['positional vs keyword passing of the same argument is not demand
 
 ATOMS = [0, 1, True, None, 1.0, 'a', '1', '', 8, 'b', u'\xe9\u2713 \u05d0']
 # values whose encoding is long (> 1 KiB) and that differ only at the very end / in the middle
-LONG = [['long', 's', 1], ['long', 's', 2], ['long', 'l', 1], ['long', 'l', 2], ['long', 'm', 1], ['long', 'm', 2]]
+LONG = [['long', 's', 1], ['long', 's', 2], ['long', 'l', 1], ['long', 'l', 2], ['long', 'm', 1], ['long', 'm', 2], ['long', 'h', 1], ['long', 'h', 2]]
 BYTES_ATOM = ['bytes', 'a']
 
 
@@ -45,6 +45,8 @@ def build(spec, rev=False):
             return 'x' * 1500 + str(spec[2])
         if spec[1] == 'l':
             return list(range(400)) + [spec[2]]
+        if spec[1] == 'h':   # a few thousand ids: the encoding is far above any plausible size shortcut (> 16 KiB)
+            return ['id-%06d' % i for i in range(1500)] + [spec[2]]
         return {'p': 'y' * 700 + str(spec[2]) + 'y' * 700}
     kids = spec[1]
     if rev:
@@ -154,7 +156,7 @@ def universe(tier):
     return out
 
 
-CONFIGS = ['inst', 'static', 'kw', 'two', 'cap-pos', 'cap-name', 'cap-none', 'cap-two', 'cap-static', 'resolver', 'two-aliases', 'fallback', 'fallback-resolver']
+CONFIGS = ['inst', 'static', 'kw', 'two', 'cap-pos', 'cap-name', 'cap-none', 'cap-two', 'cap-static', 'resolver', 'two-aliases', 'fallback', 'fallback-resolver', 'fallback-both']
 
 
 def bounds(tier):
@@ -313,6 +315,14 @@ def plan_for(cfg, U, rev=False, variant=0):
             plan.append(('f_fbres', [], {}, ident))
             for u in small[:6]:
                 plan.append(('f_fbres', [build(u, rev)], {}, ident))
+    if cfg == 'fallback-both':
+        # the renamed function (own alias + the old alias as fallback) and another function that still uses the old alias are BOTH recorded
+        # with equal arguments: each is answered by what was recorded for it
+        for t in ['knew', 'kold', 'a', '']:
+            plan.append(('f_new', [t], {}, 'A'))
+            plan.append(('f_old', [t], {}, 'A'))
+            plan.append(('f_new', [[t, 'kold']], {'x': t}, 'A'))
+            plan.append(('f_old', [[t, 'kold']], {'x': t}, 'A'))
     if cfg == 'cap-two':
         for a, b in itertools.product(small[:16], repeat=2):
             plan.append(('f_cap2', [build(a, rev), build(b, rev), ['excluded', variant], build(a, rev)], {}, 'A'))
@@ -331,6 +341,8 @@ def identity(cfg, call):
         return (fn, tuple(('kw', n, canon(kw[n])) if n in kw else ('pos', n, canon(args[p])) for p, n in ((0, 'x'), (1, 'y'), (3, 'w'))))
     if fn == 'f_scap':
         return (fn, tuple(('kw', n, canon(kw[n])) if n in kw else ('pos', n, canon(args[p])) for p, n in ((0, 'x'), (2, 'z'))))
+    if fn in ('f_old', 'f_new') and cfg == 'fallback-both':
+        return (fn, canon(list(args)), canon(kw))
     if fn in ('f_old', 'f_new'):
         return ('f_old/f_new', canon(list(args)), canon(kw))   # the renamed function answers from what was recorded under the old alias
     if fn == 'f_capname':
